@@ -89,6 +89,13 @@ _EQ_FAMILIES = [
     [["none"], ["bool", False], ["int", "0"]],
     [["float", f2h(float("inf"))], ["float", f2h(float("-inf"))]],
     [["int", str(2 ** 53)], ["float", f2h(2.0 ** 53)], ["int", str(2 ** 53 + 1)]],
+    # frozensets holding several NaN-keyed members (distinct objects, so the set keeps them all): with all NaNs
+    # identified these are the members' keys repeated - a hash folded over the members must not count them twice
+    [["fset", [["float", NAN_HEX[0]], ["str", "a"]]], ["fset", [["float", NAN_HEX[0]], ["float", NAN_HEX[1]], ["str", "a"]]],
+     ["fset", [["float", NAN_HEX[0]], ["float", NAN_HEX[0]], ["str", "a"]]], ["fset", [["float", NAN_HEX[1]], ["str", "a"]]]],
+    [["fset", [["tuple", [["float", NAN_HEX[0]], ["int", "1"]]]]],
+     ["fset", [["tuple", [["float", NAN_HEX[0]], ["int", "1"]]], ["tuple", [["float", NAN_HEX[1]], ["int", "1"]]]]],
+     ["fset", [["complex", NAN_HEX[0], f2h(0.0)], ["complex", NAN_HEX[1], f2h(0.0)]]], ["fset", [["complex", NAN_HEX[0], f2h(0.0)]]]],
 ]
 
 
